@@ -1340,6 +1340,32 @@ func (P *Prog) decideIndex(r *Result, g *modCG, fn *ssa.Function, s panicSite, c
 			}
 		}
 	}
+	// an index that a loop counts down (`for !ok(s[n]) { n-- }`) needs a lower bound of its own: the length test that
+	// admitted the first access says nothing about the accesses after it
+	if ph, isPhi := idx.(*ssa.Phi); isPhi && idx != nil {
+		down := false
+		for _, e := range ph.Edges {
+			if bo, isBo := e.(*ssa.BinOp); isBo && bo.X == ssa.Value(ph) {
+				if k, isK := constInt(bo.Y); isK && ((bo.Op == token.SUB && k > 0) || (bo.Op == token.ADD && k < 0)) {
+					down = true
+				}
+			}
+		}
+		if down {
+			bounded := false
+			for _, gd := range guardsOf(b) {
+				if bo, isBo := gd.If.Cond.(*ssa.BinOp); isBo {
+					if (bo.X == ssa.Value(ph) || bo.Y == ssa.Value(ph)) && (bo.Op == token.GEQ || bo.Op == token.GTR || bo.Op == token.LSS || bo.Op == token.LEQ) {
+						bounded = true
+					}
+				}
+			}
+			if !bounded {
+				r.bad("C06/panic-site", c, pos, "the index is counted down in a loop whose condition depends on the data ["+via+"] and nothing keeps it from going below zero: an input made of bytes that never satisfy the condition panics with 'index out of range [-1]'")
+				return
+			}
+		}
+	}
 	if !tainted {
 		// a segment of the issue path is a schema key or a field's zog tag, and a tag may be empty (`zog:""` is accepted
 		// by the struct pipeline and names the field by the key ""): indexing a segment needs a length test
